@@ -446,7 +446,8 @@ pub fn register_upvalue<T>(
     let c = resolve_closure(closure)?;
 
     if is_local {
-        let location = &vm.runtime_data.value_stack.as_slice()[index as usize];
+        // `index` is relative to the frame that creates the closure
+        let location = &vm.runtime_data.value_stack.as_slice()[stack_offset(vm) + index as usize];
         let location = (location as *const Value).cast_mut();
         unsafe {
             // look for an existing upvalue to the same location
